@@ -316,3 +316,32 @@ func (d *mapDriver) compareAll() {
 	l := d.be.Len()
 	d.c.Assert(l == len(d.ref.m), "len", "Len() = %d, model holds %d entries", l, len(d.ref.m))
 }
+
+// walkAbort runs a Walk whose callback fails on its (k+1)-th invocation.
+func (d *mapDriver) walkAbort(k int) {
+	stop := errors.New("stop walking")
+	calls := 0
+	seen := map[string]bool{}
+
+	n, err := d.be.Walk(func(key []byte, _ interface{}, _ time.Time) error {
+		calls++
+		d.c.Assert(!seen[string(key)], "walk-dup", "Walk visited key %s twice", keyName(key))
+		seen[string(key)] = true
+
+		if calls == k+1 {
+			return stop
+		}
+
+		return nil
+	})
+
+	d.c.Tracef("Walk(abort after %d) = %d, %v (callback ran %d times, %d entries held)", k, n, err, calls, len(d.ref.m))
+	d.c.Class("walk-aborted")
+
+	if len(d.ref.m)-len(d.lossy) > k {
+		d.c.Assert(errors.Is(err, stop) && calls == k+1, "walk-abort", "Walk with a callback failing on call %d returned (%d, %v) after %d callback invocations", k+1, n, err, calls)
+		d.c.Assert(n == k, "walk-abort-count", "aborted Walk reports %d processed entries, %d callbacks succeeded", n, k)
+	} else if len(d.lossy) == 0 {
+		d.c.Assert(err == nil && n == len(d.ref.m) && calls == n, "walk-count", "Walk over %d entries returned (%d, %v) with %d callbacks", len(d.ref.m), n, err, calls)
+	}
+}
